@@ -331,6 +331,7 @@ func (e *Engine) findFunc(short string) *ssaFunc {
 // Check runs one property check and returns the process exit code.
 func Check(id, tier string) int {
 	start := time.Now()
+	activeProperty = id
 	data, err := os.ReadFile(filepath.Join(verifDir, "props", id+".json"))
 	if err != nil {
 		fmt.Fprintf(os.Stderr, "no property config for %s: %v\n", id, err)
